@@ -93,8 +93,12 @@ def gen_case(rng):
                 continue
             nm = rng.choice(names)
             ops.append(["set", nm, rng.choice([-2, -1, 0, 0, 0, 1]), rng.randrange(1000)])
-        else:
+        elif r < 0.94:
             ops.append(["reopen"])
+        elif r < 0.97:
+            ops.append(["readLazy"])          # read the lazily derived arrays (parts of a curve): they are cached on the object
+        else:
+            ops.append(["clearCache"])        # drop the cached arrays: the next read rebuilds them from the file / the caches left
     return {"cls": cls, "n": n, "cells": cells, "vnames": vnames, "cnames": cnames, "ops": ops}
 
 
@@ -214,6 +218,23 @@ def run_case(ctx: Ctx, case, path):
                 failures += oracle(snap, truth_v, truth_c, tag)
                 if {k: snap[k] for k in ("verts", "cells", "vdata", "cdata")} != {k: expect[-1][k] for k in ("verts", "cells", "vdata", "cdata")}:
                     failures.append((f"re-open changed the object {tag}", "C07:reopen-differs"))
+                continue
+            if op[0] in ("readLazy", "clearCache"):
+                # neither changes the object: what is read afterwards must be what was read before
+                try:
+                    if op[0] == "readLazy":
+                        _ = getattr(obj, "parts", None)
+                        _ = getattr(obj, "unique_parts", None)
+                    else:
+                        from geoh5py.shared.utils import clear_array_attributes
+                        clear_array_attributes(obj, recursive=True)
+                except Exception as e:  # noqa: BLE001
+                    failures.append((f"{op[0]} raised {type(e).__name__}: {str(e)[:80]} {tag}", f"C07:{op[0]}:raises"))
+                    continue
+                snap = snapshot(obj)
+                failures += oracle(snap, truth_v, truth_c, tag)
+                if {k: snap[k] for k in ("verts", "cells", "vdata", "cdata")} != {k: expect[-1][k] for k in ("verts", "cells", "vdata", "cdata")}:
+                    failures.append((f"{op[0]} changed what the object reads as {tag}", f"C07:{op[0]}-differs"))
                 continue
             before = snapshot(obj)
             if "read_error" in before:
